@@ -1,7 +1,7 @@
 (* Spec-level theorems about the canonical form (C18 [T1]), part 2: the layout stage.
      enc_ok_nocap     a value with a capability has no canonical form
      cparse_enc_*     the strict sequential decoder inverts the layout *)
-From CV Require Import Value.ValueEq Value.ValueEqProofs Value.CanonSpec Value.CanonProofs.
+From CV Require Import Value.ValueEq Value.ValueEqProofs Value.CanonSpec Value.CanonProofs Value.PackProofs.
 From Coq Require Import ZifyBool ZifyNat.
 Ltac Zify.zify_post_hook ::= Z.div_mod_to_equations.
 Open Scope Z_scope.
@@ -188,7 +188,54 @@ Fixpoint skel (v : value) : bool :=
   | VStruct _ ps => forallb skel ps
   | VList LVoid es => forallb (fun e => match e with VStruct [] [] => true | _ => false end) es
   | VList LPtr es => forallb (fun e => match e with VStruct [] [p] => skel p | _ => false end) es
-  | _ => false
+  | VList LComp _ => false
+  | VList k es => forallb (fun e => match e with
+                                    | VStruct [v] [] => (0 <=? v) && (v <? kind_base k)
+                                    | _ => false
+                                    end) es
+  | VBits _ => true
+  | VCap _ => false
+  end.
+
+Lemma prim_elems B es :
+  forallb (fun e => match e with VStruct [v] [] => (0 <=? v) && (v <? B) | _ => false end) es = true ->
+  digits_ok B (map (fun e => hd_word (sdata e)) es)
+  /\ map (fun d => VStruct [d] []) (map (fun e => hd_word (sdata e)) es) = es.
+Proof.
+  induction es as [|e r IH]; intros H; [split; [constructor|reflexivity]|].
+  cbn [forallb] in H. apply andb_prop in H. destruct H as [He Hr]. destruct (IH Hr) as [I1 I2].
+  destruct e as [| |[|v [|]] [|]| |]; try discriminate.
+  split.
+  - constructor; [cbn; lia| exact I1].
+  - cbn [map sdata hd_word]. rewrite I2. reflexivity.
+Qed.
+
+Lemma bits_back bs : map (fun d => d =? 1) (map b2z bs) = bs.
+Proof. induction bs as [|b r IH]; [reflexivity|]. cbn [map]. rewrite IH. destruct b; reflexivity. Qed.
+
+Lemma bits_digits bs : digits_ok 2 (map b2z bs).
+Proof. induction bs as [|b r IH]; [constructor|]. constructor; [destruct b; cbn; lia| exact IH]. Qed.
+
+Lemma zlen_map {A B} (f : A -> B) l : zlen (map f l) = zlen l.
+Proof. unfold zlen. rewrite map_length. reflexivity. Qed.
+
+Ltac prim_case K :=
+  match goal with H : _ = COk (_, _) |- _ => inversion H; subst; clear H end;
+  match goal with Hn : 0 <= zlen ?es < two29, Hs : skel _ = true |- context [list_word ?o _ _] =>
+    destruct (list_word_fields o (kind_code K) (zlen es) ltac:(cbn; lia) Hn) as [F0 [F1 [F2 [F3 F4]]]];
+    cbn [cparse]; unfold cparse_body; cbn [kind_code] in *;
+    set (w := list_word o _ (zlen es)) in *;
+    destruct (w =? 0) eqn:Ew; [apply Z.eqb_eq in Ew; contradiction|];
+    rewrite F1, F2, F3, F4; cbn [Z.eqb negb]; rewrite Z.eqb_refl; cbn [negb];
+    clear F0 F1 F2 F3 F4 Ew; clearbody w;
+    unfold code_kind; cbn [Z.eqb Pos.eqb kind_base kind_per];
+    cbn [skel] in Hs; destruct (prim_elems (kind_base K) es Hs) as [Dg Bk]; cbn [kind_base] in Dg;
+    erewrite take_app
+      by (rewrite pack_length, zlen_map by (cbn; lia); reflexivity);
+    replace (Z.to_nat (zlen es)) with (length (map (fun e => hd_word (sdata e)) es))
+      by (rewrite map_length; unfold zlen; lia);
+    rewrite unpack_pack by (try assumption; cbn; lia);
+    rewrite zs_eqb_refl, Bk; reflexivity
   end.
 
 Lemma void_elems : forall es,
@@ -257,6 +304,10 @@ Proof.
       destruct (w =? 0) eqn:Ew; [apply Z.eqb_eq in Ew; contradiction|].
       rewrite F1, F2, F3, F4. cbn [Z.eqb negb app]. rewrite Z.eqb_refl. cbn [negb code_kind Z.eqb].
       unfold zlen. rewrite Nat2Z.id. cbn [skel] in Hs. rewrite (void_elems es Hs). reflexivity.
+    + prim_case LB1.
+    + prim_case LB2.
+    + prim_case LB4.
+    + prim_case LB8.
     + (* pointer list *)
       destruct (enc_cells (enc f) (map (fun e => CP (hd_ptr (sptrs e))) es) cur (cur + zlen es)) as [[b k]| | |] eqn:E;
         try discriminate.
@@ -275,6 +326,21 @@ Proof.
         apply in_map_iff in Hin. destruct Hin as [e [He1 He2]]. inversion He1; subst.
         cbn [skel] in Hs. rewrite forallb_forall in Hs. specialize (Hs e He2).
         destruct e as [| |[|] [|p0 [|]]| |]; try discriminate. exact Hs.
+  - (* bit list *)
+    assert (Hz : 0 <= zlen bs) by (unfold zlen; lia).
+    destruct ((zlen bs >=? two29) || (cur - pos - 1 >=? two29)) eqn:E1; [discriminate|].
+    assert (Hn : 0 <= zlen bs < two29) by lia.
+    inversion H; subst. clear H.
+    destruct (list_word_fields (cur - pos - 1) 1 (zlen bs) ltac:(lia) Hn) as [F0 [F1 [F2 [F3 F4]]]].
+    cbn [cparse]. unfold cparse_body. set (w := list_word (cur - pos - 1) 1 (zlen bs)) in *.
+    destruct (w =? 0) eqn:Ew; [apply Z.eqb_eq in Ew; contradiction|].
+    rewrite F1, F2, F3, F4. cbn [Z.eqb negb]. rewrite Z.eqb_refl. cbn [negb].
+    clear F0 F1 F2 F3 F4 Ew. clearbody w.
+    rewrite (take_app (words_for 64 (zlen bs)) _ _)
+      by (rewrite pack_length, zlen_map by lia; reflexivity).
+    replace (Z.to_nat (zlen bs)) with (length (map b2z bs)) by (rewrite map_length; unfold zlen; lia).
+    rewrite unpack_pack by (try apply bits_digits; lia).
+    rewrite zs_eqb_refl, bits_back. reflexivity.
 Qed.
 
 (* non-vacuity / sanity of the full statement on samples of every list kind *)
